@@ -108,6 +108,12 @@ def gen_cases(rng, tier):
             if c >= 200:
                 state = "s"
         cases.append(_case("r%d" % i, hist, rng))
+        if i % 4 == 0:
+            # the same history over a reliable (connection) transport: forks, the order of delivery and the 64*T1 the transaction stays
+            # after the first 2xx do not depend on the transport
+            c = _case("rt%d" % i, hist, rng)
+            c[3] += ";tcp"
+            cases.append(c)
     for i, hist in enumerate((["180:a"], ["200:a"], ["183:a", "200:a"])):
         cases.append(_case("nc%d" % i, hist, rng, nocontact=True))
     # a 100 may carry a To-tag (RFC 3261 8.2.6.2): it is still a 100 - provisional, no dialog, no effect on the early dialogs
